@@ -759,12 +759,8 @@ func vh15Plans(thorough bool) []vh15Plan {
 	orders := []string{"LV", "VL"}
 	// (1) recombined headers, payload queries + restart, deep
 	var d1 []vh15Dag
-	maxLen := 2
-	if thorough {
-		maxLen = 3
-	}
 	for _, o := range orders {
-		for _, h := range vh15Headers(maxLen, false) {
+		for _, h := range vh15Headers(2, false) {
 			d1 = append(d1, vh15Dag{Family: "recombined", T1Order: o, Att: h, Offer: "with-payload", Holds: true})
 		}
 	}
@@ -773,6 +769,18 @@ func vh15Plans(thorough bool) []vh15Plan {
 		depth1 = 4
 	}
 	plans = append(plans, vh15Plan{name: "recombined/queries", dags: d1, events: core, depth: depth1, intro: true})
+	if thorough {
+		// (1b) headers of length 3
+		var d1b []vh15Dag
+		for _, o := range orders {
+			for _, h := range vh15Headers(3, false) {
+				if len(h) == 3 {
+					d1b = append(d1b, vh15Dag{Family: "recombined", T1Order: o, Att: h, Offer: "with-payload", Holds: true})
+				}
+			}
+		}
+		plans = append(plans, vh15Plan{name: "recombined-length-3/queries", dags: d1b, events: core, depth: 3, intro: true})
+	}
 	// (2) recombined headers that share material with the victim, every event kind, shallower
 	var d2 []vh15Dag
 	for _, o := range orders {
@@ -903,7 +911,7 @@ func TestVerifC15Histories(t *testing.T) {
 		"every sequence (length 1..2, thorough 1..3; thorough also all pairs of two such transactions) over {T1's first entry, T1's second entry, own entry encrypted for V naming {A,V}, own entry V cannot decrypt} " +
 		"— whole list, first entry only, subsets, reordered, duplicated, each with and without own entries; or a second victim T3 (other canary, list {M,V}). Events: payload query / list query / gossip / " +
 		"unsolicited payload response (with what that peer legitimately knows) by every peer about every transaction, range query by every peer, V's own payload retry job, restart (fresh protocol instance, same store), " +
-		"and the publication at every position. Plans: payload queries + restart to depth 3 (thorough 4); all event kinds to depth 2 (thorough 3). Every envelope V hands to Send stays QUEUED " +
+		"and the publication at every position. Plans: payload queries + restart to depth 3 (thorough 4 for headers up to length 2, 3 for length 3 and for pairs, 5 for two victims); all event kinds to depth 2 (thorough 3). Every envelope V hands to Send stays QUEUED " +
 		"(pointer kept, as the real connection does) and is serialised again after every later event = at every flush position; the canary oracle is applied to the bytes at Send and to every later serialisation. " +
 		"A case is one history of one DAG configuration")
 	r.Assume("the connection's Authenticated flag and node DID are what the authenticator established")
